@@ -99,8 +99,8 @@ var alphabet = []cmdSpec{
 	{name: "STATUS", wire: "STATUS box (MESSAGES)", calls: []string{"Status"}, states: authSel, failing: "Status"},
 	{name: "APPEND", wire: "APPEND box {3+}\r\nabc", calls: []string{"Append"}, states: authSel, failing: "Append"},
 	{name: "IDLE", wire: "IDLE", calls: []string{"Idle"}, states: authSel},
-	{name: "CLOSE", wire: "CLOSE", calls: []string{"Expunge", "Unselect"}, states: selOnly},
-	{name: "UNSELECT", wire: "UNSELECT", calls: []string{"Unselect"}, states: selOnly},
+	{name: "CLOSE", wire: "CLOSE", calls: []string{"Expunge", "Unselect"}, states: selOnly, failing: "Unselect"},
+	{name: "UNSELECT", wire: "UNSELECT", calls: []string{"Unselect"}, states: selOnly, failing: "Unselect"},
 	{name: "EXPUNGE", wire: "EXPUNGE", calls: []string{"Expunge"}, states: selOnly, failing: "Expunge"},
 	{name: "UID EXPUNGE", wire: "UID EXPUNGE 1:3", calls: []string{"Expunge"}, states: selOnly, failing: "Expunge"},
 	{name: "SEARCH", wire: "SEARCH ALL", calls: []string{"Search"}, states: selOnly, failing: "Search"},
@@ -785,7 +785,7 @@ func main() {
 			"configurations = {plaintext, implicit TLS, STARTTLS} x InsecureAuth x {OK, PREAUTH greeting} x session kind x capability set; distinct = distinct (configuration, command list, outcome list)",
 		Assumptions: []string{
 			"reference state machine written from RFC 9051 §3/§6; a command that is not permitted in the current state must get NO or BAD and reach no backend method",
-			"Unselect and the Expunge inside CLOSE are never scripted to fail (the RFC does not say what a server should do then)",
+			"a CLOSE / UNSELECT whose Session.Unselect fails is answered NO and, like every refused command, changes nothing: the mailbox stays selected; the Expunge inside CLOSE is never scripted to fail (the RFC does not say what a server should do then)",
 			"TLS is Go's crypto/tls over the in-process connection",
 		},
 		Shards:    func(string) int { return 12 },
